@@ -497,9 +497,6 @@ def reference(world):
                 failed.pop(c, None)   # could not be had before (asked for by name, or a broken copy precedes this one)
                 broken_here.discard(c)
                 broken_imports.pop(c, None)
-                if source_failed and m not in broken_here:
-                    failed.pop(m, None)     # an earlier source failed on this name, this one did not
-                    source_failed = False
                 if req:
                     requested_canon.add(c)
                 if c in users:
@@ -512,7 +509,7 @@ def reference(world):
                 # m is known from an IMPORTS clause, so it names a MODULE; this file holds modules called differently
                 continue
             if source_failed:
-                failed.pop(m, None)   # answered by a file whose modules are all known already
+                failed.pop(m, None)   # an earlier source failed on this name, this one answers it
             accepted = True
             break
         if not accepted and m not in failed and m not in parsed:
